@@ -54,10 +54,14 @@ class Impl:
         self.c = self.a.eGet(feat.name)
 
     def v(self, t):
-        return self.tok2v[t] if self.kind != 'attr' else t
+        if self.kind != 'attr':
+            return self.tok2v[t]
+        # a FRESH int object on every call (outside CPython's small-int cache): equal to, never identical with, the
+        # element the collection holds - lookups go by equality, as for a list
+        return int(str(t * 1000 + 7))
 
     def t(self, v):
-        return self.v2tok[id(v)] if self.kind != 'attr' else v
+        return self.v2tok[id(v)] if self.kind != 'attr' else (v - 7) // 1000
 
     def apply(self, op):
         c = self.c
